@@ -206,14 +206,23 @@ def judge_eat(R, it, res, ans):
             return
     if not errs and any(X[i][alloc[i]] <= 0 for i in range(n)):
         errs.append("an agent received an item with zero probability in the implementation's own eating matrix")
-    # exact eating process (Lean model) for complete profiles
-    if not errs and not incomplete:
+    # exact eating process (Lean model): `eat` for complete profiles, the mirror `eatInc` (what the code really does when it walks
+    # into NaN-ranked items; C07_eatInc_eq_complete, C07_incomplete_counterexample) for incomplete ones
+    if not errs:
         t = ans.split()
         if t[0] == "ok":
             M = [[Fraction(t[1 + i * n + j]) for j in range(n)] for i in range(n)]
             zero_prob = [(i, alloc[i]) for i in range(n) if M[i][alloc[i]] == 0]
             if zero_prob:
                 errs.append(f"agent/item {zero_prob[:2]} has probability exactly 0 in the eating process")
+            if incomplete:
+                R.count("eat:incomplete_profile_vs_mirror_eatInc")
+                worst = max(abs(X[i][j] - M[i][j]) for i in range(n) for j in range(n))
+                model_bad = sorted((i, j) for i in range(n) for j in range(n) if P[i][j] is None and M[i][j] > 0)
+                if worst > Fraction(1, 10 ** 7) or model_bad != sorted(bad_share):
+                    # the recorded known finding has exactly the shape the mirror predicts; anything else is new
+                    R.corr_break("bistochastic on an incomplete profile = the mirror Eat.eatInc (entrywise 1e-7; unacceptable shares exactly where the mirror has them)",
+                                 ENTRY_BIS, inp, [[float(x) for x in r] for r in X], ans, cfg)
         else:
             R.corr_break("exact eating model defined", ENTRY_EAT, inp, None, ans, cfg)
     # the draw: probabilities proportional to the decomposition coefficients, returned allocation = drawn permutation
@@ -300,10 +309,12 @@ def run(R):
         flat += res["results"] if "results" in res else [{"hang": True}] * len(case["items"])
     lines, idx = [], []
     for i, it in enumerate(eat_items):
+        n = len(it["P"])
         if all(v is not None for row in it["P"] for v in row):
-            n = len(it["P"])
             lines.append(" ".join(["eat", str(n)] + [str(v) for row in it["P"] for v in row] + it["speeds"]))
-            idx.append(i)
+        else:
+            lines.append(" ".join(["eatinc", str(n)] + [optn(v) for row in it["P"] for v in row] + it["speeds"]))
+        idx.append(i)
     ans = dict(zip(idx, lean_query(lines)))
     for i, (it, r) in enumerate(zip(eat_items, flat)):
         judge_eat(R, it, r, ans.get(i, "err incomplete"))
@@ -327,4 +338,6 @@ def replay(R, rep):
         a = "err incomplete"
         if all(v is not None for row in it["P"] for v in row):
             a = lean_query([" ".join(["eat", str(n)] + [str(v) for row in it["P"] for v in row] + it["speeds"])])[0]
+        else:
+            a = lean_query([" ".join(["eatinc", str(n)] + [optn(v) for row in it["P"] for v in row] + it["speeds"])])[0]
         judge_eat(R, it, r, a)
